@@ -36,7 +36,13 @@ def run(tier, seed):
         obs = []
         if (not p["nonlinear"]) or nsteps(p) <= 2:
             obs.append({"obs": "run", "solver": "euler", "params": pv})
-        obs.append({"obs": "oracle", "name": "c08", "params": pv, "reqs": reqs, "cvs": cvs,
+        extra = None
+        if not wl and len(reqs) >= 2 and len(progs) % 3 == 0:
+            extra = [{"name": "rt", "save": True, "req": {"type": "func", "fn": 3, "sources": [reqs[0]["name"], reqs[-1]["name"]], "params": []}},
+                     {"name": "art", "save": g.rng.random() < 0.7, "req": {"type": "agg", "sources": ["rt", reqs[0]["name"]]}},
+                     {"name": "cart", "save": True, "req": {"type": "cum", "source": "art", "start": None}}]
+        obs.append({"obs": "oracle", "name": "c08", "params": pv, "reqs": reqs, "cvs": cvs, "extra": extra,
+                    "program": checklib.strip_meta(dict(p, obs=[])) if extra else None,
                     "prior_params": g.params_values(small=True) if g.rng.random() < 0.5 else None,
                     "whitelist": wl[-1] if wl else None, "solver": g.rng.choice(["euler", "rk4", "solve_ivp"])})
         p["obs"] = obs
